@@ -140,7 +140,7 @@ func execCapScript(script string) string {
 	cp, prom := capnp.NewPromisedClient(hp)
 	poolT := []*capnp.Client{ct}
 	poolP := []*capnp.Client{cp}
-	resolved, toNil := false, false
+	resolved, toNil, toErr := false, false, false // toErr: fulfilled with its own client: handles refer to an error client
 	var out []string
 	pop := func(pool *[]*capnp.Client) *capnp.Client {
 		c := (*pool)[len(*pool)-1]
@@ -168,7 +168,7 @@ func execCapScript(script string) string {
 				res = "skip"
 				break
 			}
-			if !resolved {
+			if !resolved || toErr {
 				poolP = append(poolP, poolP[len(poolP)-1].AddRef())
 				break
 			}
@@ -257,7 +257,7 @@ func execCapScript(script string) string {
 				res = "skip"
 				break
 			}
-			if !resolved {
+			if !resolved || toErr {
 				res = callResult(poolP[len(poolP)-1])
 				break
 			}
@@ -283,6 +283,14 @@ func execCapScript(script string) string {
 			tc := poolT[len(poolT)-1]
 			res = bg(func() { prom.Fulfill(tc) })
 			resolved = true
+		case "fulfillSelf":
+			if resolved || len(poolP) == 0 {
+				res = "skip"
+				break
+			}
+			pc := poolP[len(poolP)-1]
+			res = bg(func() { prom.Fulfill(pc) })
+			resolved, toErr = true, true
 		case "fulfillNil":
 			if resolved {
 				res = "skip"
@@ -459,7 +467,7 @@ func execCap(t []string) string {
 	return "bad-op"
 }
 
-var capOps = []string{"addT", "addP", "relT", "relP", "callT", "callP", "weakT", "fulfill", "fulfillNil", "staleT",
+var capOps = []string{"addT", "addP", "relT", "relP", "callT", "callP", "weakT", "fulfill", "fulfillNil", "fulfillSelf", "staleT",
 	"beginT", "beginP", "end", "end", "mkweakT", "upT"}
 
 // execCapChain: a two-level promise chain, fulfilled inside-out with no operation on the middle client in
@@ -503,6 +511,9 @@ func genC10(rec *lib.Rec, r *lib.Rng, thorough bool) {
 			"beginP,relP,fulfill,end,relT",
 			"addP,fulfill,relP,relP,mkweakT,relT,upT",
 			"mkweakT,relT,upT,fulfill",
+			"addP,fulfillSelf,callP,addP,relP,relP,relP,relT",
+			"beginP,fulfillSelf,end,callP,relP,relT",
+			"fulfillSelf,relP,relT",
 		} {
 			rec.Op("M", "cap script "+sc, true)
 		}
